@@ -15,19 +15,19 @@ A)
   PYTHONPATH=$WT timeout 900 /venv/bin/python $D/demo.py > $S/$ID.demo_orig.log 2>&1; echo "demo on original tree: exit $?" >> $OUT
   git apply $D/patch.diff
   PYTHONPATH=$WT timeout 900 /venv/bin/python $D/demo.py > $S/$ID.demo_mut.log 2>&1; echo "demo on mutated tree: exit $?" >> $OUT
-  PYTHONPATH=$WT /venv/bin/python -m pytest -q -p no:cacheprovider --timeout=900 --continue-on-collection-errors -n 6 --junitxml=$S/$ID.junit.xml > $S/$ID.pytest.log 2>&1
+  PYTHONPATH=$WT /venv/bin/python -m pytest -q -p no:cacheprovider --timeout=900 --continue-on-collection-errors -n 5 --junitxml=$S/$ID.junit.xml > $S/$ID.pytest.log 2>&1
   python3 /verif/tools/check_baseline.py $S/$ID.junit.xml | head -3 >> $OUT
   cd /; git -C /repo worktree remove --force $WT; cat $OUT ;;
 W)
-  WT=$S/vW_${ID}_$C; OUT=$S/$ID.verifyW.$C.txt; : > $OUT
+  WT=$S/vW_${ID}_${C}_$$; OUT=$S/$ID.verifyW.$C.$$.txt; : > $OUT
   git -C /repo worktree add -q --detach $WT HEAD || { echo "worktree failed" >> $OUT; exit 2; }
   ( cd $WT && git apply $D/patch.diff ) || { echo "apply failed" >> $OUT; git -C /repo worktree remove --force $WT; exit 2; }
-  mkdir -p $S/out_${ID}_$C
-  cd /verif && ( PYTHONPATH=$WT VERIF_OUT_DIR=$S/out_${ID}_$C timeout 3000 ./vcheck $C "$@" > $S/$ID.checkW.$C.log 2>&1; echo "check $C exit $?" >> $OUT )
-  git -C /repo worktree remove --force $WT; rm -rf $S/out_${ID}_$C
-  grep -c "^VIOLATION" $S/$ID.checkW.$C.log | sed 's/^/VIOLATION lines: /' >> $OUT
-  grep "^VIOLATION" -A2 $S/$ID.checkW.$C.log | head -6 | cut -c1-400 >> $OUT
-  tail -1 $S/$ID.checkW.$C.log | cut -c1-250 >> $OUT; cat $OUT ;;
+  mkdir -p $S/out_${ID}_${C}_$$
+  cd /verif && ( PYTHONPATH=$WT VERIF_OUT_DIR=$S/out_${ID}_${C}_$$ timeout 3000 ./vcheck $C "$@" > $S/$ID.checkW.$C.$$.log 2>&1; echo "check $C exit $?" >> $OUT )
+  git -C /repo worktree remove --force $WT; rm -rf $S/out_${ID}_${C}_$$
+  grep -c "^VIOLATION" $S/$ID.checkW.$C.$$.log | sed 's/^/VIOLATION lines: /' >> $OUT
+  grep "^VIOLATION" -A2 $S/$ID.checkW.$C.$$.log | head -6 | cut -c1-400 >> $OUT
+  tail -1 $S/$ID.checkW.$C.$$.log | cut -c1-250 >> $OUT; cat $OUT ;;
 B)
   OUT=$D/verifyB.$C.txt; : > $OUT
   [ -z "$(git -C /repo status --short)" ] || { echo "/repo not clean" ; exit 2; }
